@@ -135,7 +135,7 @@ theorem bufioReadLine_trip (fuel : Nat) (w : W) (h : w.tripped = true) : (bufioR
   unfold bufioReadLine
   split <;> rename_i heq <;> rw [heq] at this <;> simp only [] at this
   · split <;> exact this
-  · split <;> exact this
+  · exact this
   · exact this
 
 theorem readLineAux_trip : ∀ (n fuel : Nat) (w : W) (acc : Bytes), w.tripped = true →
